@@ -7,7 +7,7 @@
     xml_roundtrip_events output_wellformed_events
     explicit_default_not_undeclared
     encode_roundtrip_text encode_roundtrip_attr charref_roundtrip
-    attr_tab_lf_cr_not_recovered text_cr_not_recovered
+    attr_tab_lf_cr_not_recovered text_cr_not_recovered decl_encoding_echoed
 -/
 import Genshi.Lemmas.XmlRefs
 import Genshi.Lemmas.XmlFlatD
@@ -132,5 +132,16 @@ theorem attr_tab_lf_cr_not_recovered :
     reader reports it as LF. -/
 theorem text_cr_not_recovered :
     (normEol (escapePy false ['a', '\r', 'b'])) = ['a', '\n', 'b'] := by decide
+
+/-- Known finding `C02-decl-encoding-echo`, model side: the serializer writes the
+    declaration of the source whatever encoding `encode` is then asked for, and a
+    character the codec has is written raw — under latin-1 the bytes say
+    `encoding="utf-8"` and hold a lone 0xE9.  (The theorems above are about the
+    text as the codec's own decoder returns it.) -/
+theorem decl_encoding_echoed :
+    (serialize [.xmlDecl ['1', '.', '0'] (some ['u', 't', 'f', '-', '8']) (-1),
+                .start ⟨[], ['a']⟩ [], .text [Char.ofNat 233] false, .end_ ⟨[], ['a']⟩]).map
+      (encodeText (inRanges [(0, 255)])) =
+    some ['<', '?', 'x', 'm', 'l', ' ', 'v', 'e', 'r', 's', 'i', 'o', 'n', '=', '"', '1', '.', '0', '"', ' ', 'e', 'n', 'c', 'o', 'd', 'i', 'n', 'g', '=', '"', 'u', 't', 'f', '-', '8', '"', '?', '>', '\n', '<', 'a', '>', (Char.ofNat 233), '<', '/', 'a', '>'] := by decide
 
 end Genshi.Props.C02
